@@ -194,11 +194,19 @@ def illformed_case(item):
         t.root.adjust(64.0)
         t.root.update(t.dates[0])
         t.i = 0
-        for _ in range(k - 1):
-            t.apply(["next"])
-        t.apply(["transact", [], item["sec"], 4.0])
-        t.root.value
-        r = _expect_raise(t, lambda: (t.apply(["next"]), t.root.value), cls)
+        if item.get("when") == "opened_on_date":
+            # flat until the date of the missing coupon (nothing wrong so far); the position is opened on
+            # that very date: it is open at the end of it and its coupon cannot be determined
+            for _ in range(k):
+                t.apply(["next"])
+            t.root.value
+            r = _expect_raise(t, lambda: (t.apply(["transact", [], item["sec"], 4.0]), t.root.value), cls)
+        else:
+            for _ in range(k - 1):
+                t.apply(["next"])
+            t.apply(["transact", [], item["sec"], 4.0])
+            t.root.value
+            r = _expect_raise(t, lambda: (t.apply(["next"]), t.root.value), cls)
     elif cls == "duplicate_columns":
         data = R.table("d6")
         data = pd.concat([data, data[[item["col"]]]], axis=1)
@@ -305,6 +313,7 @@ def situations():
         for k in (1, 2, 3):
             for sec in ("c", "ch"):
                 out.append({"cls": "nan_coupon_open_position", "date": k, "sec": sec, "integer": integer})
+                out.append({"cls": "nan_coupon_open_position", "date": k, "sec": sec, "integer": integer, "when": "opened_on_date"})
         for k in (0, 1, 2):
             out.append({"cls": "zero_base", "fi": True, "date": k, "integer": integer})
         for col in ("a", "b", "c"):
